@@ -236,6 +236,9 @@ func TestFold(t *testing.T) {
 		r.Count("fold_positive_random", l.pos)
 	})
 
+	// ASCII non-letters next to their "bit 5" partners: only letters fold
+	symbols := []string{"[", "{", "@", "`", "_", "\x7f", "\n", "*", "\x00", " ", "1", "\x11", "a", "A", "^", "~"}
+	sweep("ascii_symbols", symbols, 3, 2)
 	// ASCII exhaustive: both reference forms and golibs
 	ascii := []string{"a", "A", "k", "K", "s", "S", "1", " "}
 	sweep("ascii", ascii, r.Pick(5, 6), 3)
